@@ -479,8 +479,8 @@ func envelopeRetainedBytes(env *Envelope) int64 {
 // dropOldestQueuedLocked evicts the oldest queued item and returns it (nil if
 // nothing could be evicted).
 func (s *MemoryStore) dropOldestQueuedLocked() *Envelope {
-	// "Oldest" is the smallest received_at, as in the SQLite and Postgres
-	// backends; insertion order only breaks ties.
+	// "Oldest" is the smallest received_at, ties broken by id, as in the SQLite
+	// and Postgres backends (ORDER BY received_at ASC, id ASC).
 	var oldest *Envelope
 	for _, id := range s.order {
 		env := s.items[id]
@@ -490,7 +490,8 @@ func (s *MemoryStore) dropOldestQueuedLocked() *Envelope {
 		if env.State != StateQueued {
 			continue
 		}
-		if oldest == nil || env.ReceivedAt.Before(oldest.ReceivedAt) {
+		if oldest == nil || env.ReceivedAt.Before(oldest.ReceivedAt) ||
+			(env.ReceivedAt.Equal(oldest.ReceivedAt) && env.ID < oldest.ID) {
 			oldest = env
 		}
 	}
